@@ -55,7 +55,7 @@ def plan_st(draw, tier):
         else:
             h.fit(new_d=draw(st.booleans()))
     for _ in range(draw(st.integers(1, 7 if tier == "quick" else 12))):
-        gen.step_any(h, ["partial_fit"] + gen.ARM_KINDS + gen.WARM_KINDS + gen.QUERY_KINDS * 3 + ["cold_arms"], True)
+        gen.step_any(h, ["partial_fit"] + gen.ARM_KINDS + gen.WARM_KINDS + gen.QUERY_KINDS * 3 + ["cold_arms", "policies"], True)
     return {"config": cfg, "prior": h.ops[:n_prior], "refit": h.ops[n_prior], "cont": h.ops[n_prior + 1:],
             "old_rows": old_rows, "buffer_from": buffer_from}
 
